@@ -40,7 +40,9 @@ func runC34(c *Ctx) {
 	t0 := time.Now()
 	defer func() { r.Extra["rules_wall_s"] = time.Since(t0).Seconds() }()
 	r.Rule("C34.R1", "in both NextNAL functions no return of a NAL unit is reachable from a statement that accumulates into the NAL buffer (append in the loop, the prefix helper's first byte) without passing a test of the SEI filter (a branch that depends on includeSEI); the filter predicate, tabulated over (includeSEI, unit type), is true exactly for (false, SEI type) or exactly for the complement", 6)
-	r.Rule("C34.R2", "h264reader and h265reader agree structurally (alpha-normalised, H264/H265 name parts removed) on read, processByte and the start-code prefix helper", 3)
+	r.Rule("C34.R2", "h264reader and h265reader agree structurally (alpha-normalised, H264/H265 name parts removed) on read, processByte and the start-code prefix helper", 0)
+	r.Rule("C34.R4", "start-code detection: processByte of each reader, tabulated over (byte, zeros seen, bytes buffered), equals the Annex-B rule: 0x00 extends the zero run; 0x01 after >= 2 zeros ends the unit, strips the 2 (3 for a longer run) zeros of the start code and reports a unit iff bytes remain; everything else is payload; both reset the run", 8)
+	r.Rule("C34.R5", "the read buffer owns its bytes: every assignment to readBuffer is an append to itself, a re-slice of itself, nil or a fresh slice, never a window into the scratch buffer passed to stream.Read (so results do not depend on chunk sizes)", 4)
 	r.Rule("C34.R3", "NAL header bit layout, evaluated for every header byte value: H.264 F=bit7, NRI=bits6-5, type=bits4-0; H.265 F=b0 bit7, type=b0 bits6-1, layer=(b0 bit0)<<5|b1 bits7-3, tid=b1 bits2-0; every other NAL-type extraction in the reader packages uses the type bits", 9)
 	r.NotCovered = append(r.NotCovered, "exactness of start-code scanning over arbitrary read-chunk sizes (processByte's automaton is compared between the readers, not with the Annex-B grammar)", "emulation-prevention bytes / trailing zero bytes")
 	r.Trusted = append(r.Trusted, "ITU-T H.264 §7.3.1 and H.265 §7.3.1.2 NAL unit header layouts as transcribed in props/c34.go", "core/eval semantics for integer and bit operations")
@@ -50,6 +52,8 @@ func runC34(c *Ctx) {
 		c34Header(c, l, rd)
 	}
 	c34Siblings(c)
+	c34R4(c, "C34.R4")
+	c34R5(c, "C34.R5")
 }
 
 // ---------- R1 ----------
@@ -684,7 +688,9 @@ func c34Siblings(c *Ctx) {
 			i++
 		}
 		ctx := func(t []string) string { return strings.Join(t[max(0, i-6):min(len(t), i+6)], " ") }
-		r.Fail("C34.R2", key, c.P.Pos(fb.Decl.Pos()), sprintf("the two readers differ in %s: h264reader `… %s …` vs h265reader `… %s …` (one of them deviates from the shared Annex-B framing)", p[0], ctx(ta), ctx(tb)))
+		// Not judged: a one-sided behaviour-preserving refactor makes the two bodies differ syntactically. The framing
+		// behaviour itself is judged per reader by R4 (start-code state machine table) and R5 (read buffer ownership).
+		r.Info("C34.R2", key, c.P.Pos(fb.Decl.Pos()), sprintf("listed, not judged: the two readers differ syntactically in %s: h264reader `… %s …` vs h265reader `… %s …`", p[0], ctx(ta), ctx(tb)))
 	}
 }
 
